@@ -14,6 +14,9 @@ package config
 import (
 	"encoding/json"
 	"fmt"
+	"net"
+	"net/http"
+	"net/http/httptest"
 	"os"
 	"os/exec"
 	"path/filepath"
@@ -74,7 +77,7 @@ func c15Parsed(o *c15Opt) bool {
 // c15DegCase: the single-source and two-source cases of the model without junk, canonical
 // spelling, in which the abstract value v1 occurs.
 func c15DegCase(c *c15Case) bool {
-	if c.Kind != "" || c.Opt != "" || (c.NSrc != "" && c.NSrc != c15None) || len(c.Junk) > 0 || c.Fstate == "junk" || c.Via != "validate" || c.FenvCase != "upper" || c.EnvCase != "upper" {
+	if c.Kind != "" || c.Opt != "" || (c.NSrc != "" && c.NSrc != c15None) || (c.Fetch != "" && c.Fetch != "path") || len(c.Junk) > 0 || c.Fstate == "junk" || c.Via != "validate" || c.FenvCase != "upper" || c.EnvCase != "upper" {
 		return false
 	}
 	if c.File == c15None && c.Fstate != "absent" {
@@ -505,5 +508,101 @@ func (w *c15Worker) runNeighbour(c *c15Case, o *c15Opt, oi int, ref *c15Ref, idx
 		"%s=%q from %s next to the %s value %q of %s (which Load visits %s it) from %s: the configuration differs from the one with %s on the command line and the same said about %s: %s (errors: %v / %v)\nargs=%q environ=%s file=%q",
 		o.Name, o.V[c.Value], c.Winner, map[string]string{"ok": "well-formed", "ill": "ill-formed"}[c.NForm], val, a.Name, c.NSide, c.NSrc, o.Name, a.Name,
 		c15Diff(got.cfg, want.cfg), got.err, want.err, args, c15Quote(environ), c15Trunc(file))
+	return true
+}
+
+// ---------------------------------------------------------------- where the file comes from
+
+// server starts (once per worker) the HTTP server the configuration file is fetched from.  The
+// path selects the course of the transfer; the body and the place where a broken transfer stops
+// are set per case.
+func (w *c15Worker) server() *httptest.Server {
+	if w.srv != nil {
+		return w.srv
+	}
+	w.srv = httptest.NewServer(http.HandlerFunc(func(rw http.ResponseWriter, r *http.Request) {
+		body, cut := w.srvBody, w.srvCut
+		switch r.URL.Path {
+		case "/complete":
+			rw.Header().Set("Content-Type", "text/plain; charset=utf-8")
+			rw.Header().Set("Content-Length", strconv.Itoa(len(body)))
+			rw.Write([]byte(body))
+		case "/notfound":
+			http.Error(rw, body, http.StatusNotFound) // the body is there, the status says it is not the file
+		case "/servererror":
+			http.Error(rw, body, http.StatusInternalServerError)
+		case "/truncated", "/reset":
+			hj, ok := rw.(http.Hijacker)
+			if !ok {
+				return
+			}
+			conn, buf, err := hj.Hijack()
+			if err != nil {
+				return
+			}
+			fmt.Fprintf(buf, "HTTP/1.1 200 OK\r\nContent-Type: text/plain; charset=utf-8\r\nContent-Length: %d\r\n\r\n%s", len(body), body[:cut])
+			buf.Flush()
+			if tc, ok := conn.(*net.TCPConn); ok && r.URL.Path == "/reset" {
+				tc.SetLinger(0) // RST instead of FIN
+			}
+			conn.Close()
+		}
+	}))
+	return w.srv
+}
+
+// runFetch replays a case in which the file is fetched from a URL.
+func (w *c15Worker) runFetch(c *c15Case, o *c15Opt, ref *c15Ref, idx int) bool {
+	if ref.isBad["v1"] || ref.isBad["v2"] || !c15InFile(o.V[c.File]) {
+		return false
+	}
+	srv := w.server()
+	cc := *c
+	cc.Fstate = "ok"
+	args, env, file, _ := c15Concrete(&cc, o, idx, srv.URL+"/"+c.Fetch)
+	// a broken transfer stops in the middle of the option's value: what arrived is a well-formed file
+	line := o.Name + " = "
+	at := strings.Index(file, line)
+	if at < 0 {
+		return false
+	}
+	w.srvBody, w.srvCut = file, at+len(line)+len(o.V[c.File])/2
+	environ := c15EnvStrings(env)
+	got := c15Load(args, environ)
+	w.loads++
+	agrees := func(g c15Outcome) bool {
+		if g.panic != nil || (g.cfg == nil) == (g.err == nil) {
+			return false
+		}
+		if c.Result == "error" {
+			return g.err != nil
+		}
+		return g.err == nil && reflect.DeepEqual(g.cfg, ref.out[c.Value].cfg)
+	}
+	for try := 0; try < 2 && !agrees(got) && c.Result != "error"; try++ { // transient interface-query errors
+		got = c15Load(args, environ)
+		w.loads++
+	}
+	w.nfetch++
+	w.ran++
+	if agrees(got) {
+		return true
+	}
+	rec := *c
+	rec.Opt, rec.Idx, rec.Args, rec.EnvB64, rec.EnvText = o.Name, idx, args, c15B64(environ), c15Quote(environ)
+	rec.FileB64 = ""
+	feat := map[string]any{"sub": "sources", "clause": "partial-file-accepted", "kind": o.Kind, "fetch": c.Fetch, "winner": c.Winner}
+	switch {
+	case got.panic != nil:
+		feat["clause"] = "load-panic"
+		verifx.Fail(rec, feat, "config.Load panicked fetching the file (%s): %v\n%s", c.Fetch, got.panic, c15Stack(got.stack))
+	case c.Result == "error":
+		verifx.Fail(rec, feat, "-cfg %s: the transfer of the file is %s (%d of %d bytes arrived, cut inside %q) but config.Load returns a configuration instead of an error: %s\nargs=%q environ=%s",
+			args[len(args)-1], c.Fetch, w.srvCut, len(file), line+o.V[c.File], c15Diff(got.cfg, ref.out[c.Value].cfg), args, c15Quote(environ))
+	default:
+		feat["clause"] = "url-differs-from-path"
+		verifx.Fail(rec, feat, "-cfg %s: the complete file from a URL does not mean what the same file at a path means: err=%v %s\nargs=%q environ=%s file=%q",
+			args[len(args)-1], got.err, c15Diff(got.cfg, ref.out[c.Value].cfg), args, c15Quote(environ), c15Trunc(file))
+	}
 	return true
 }
